@@ -125,7 +125,7 @@ HARNESSES = [
          encodes=["tinylfu_cached::cache::cached::CacheD::{delete,get,get_ref,put_with_weight,total_weight_used}", "Store::{mark_deleted,delete}", "CommandExecutor::{send,spin (worker closure),delete}", "AdmissionPolicy::delete", "CacheWeight::delete", "TTLTicker::delete", "CommandAcknowledgementHandle::{done,poll}"]),
     dict(name="c07_put_while_writer_holds_guard", file="cached.rs", props=["C07", "C18"], timeout=900,
          encodes=["tinylfu_cached::cache::cached::CacheD::{put_or_update,put_with_weight}", "Store::{update,is_present}"]),
-    dict(name="c18_worker_evicts_ttl_key_through_real_hook", tier="off", file="cached.rs", props=["C18", "C05"], timeout=900,
+    dict(name="c18_worker_evicts_ttl_key_through_real_hook", tier="quick", file="cached.rs", props=["C18", "C05"], timeout=900,
          encodes=["tinylfu_cached::cache::command::command_executor::CommandExecutor::spin (worker closure + real delete hook)", "AdmissionPolicy::{maybe_add,create_space}", "CacheWeight::delete", "Store::delete"]),
     dict(name="c18_sweeper_evicts_expired_key_through_real_hook", file="cached.rs", props=["C18", "C10"], timeout=900,
          encodes=["tinylfu_cached::cache::expiration::TTLTicker::spin (sweeper closure)", "CacheD::ttl_ticker (real evict hook)", "AdmissionPolicy::delete_with_hook", "CacheWeight::delete", "Store::delete"]),
@@ -323,8 +323,8 @@ PROPERTY_NOTES = {
         outside="allocation failure; panics inside client-supplied closures; TTL near Duration::MAX and weights near i64::MAX on the upsert path (boundary harness planned)",
         explanation="a reachable panic in any harness is a failed check of that harness"),
     "C18": dict(
-        bounds="lock-order graph: one reachability query per ordered pair of lock/queue classes in each C18 harness (cache-weight ops, pool add, ack races, delete + worker, unawaited put+delete + worker, get_ref hit path, guard-held races, real sweeper with real evict hook on a one-key world); union graph checked for cycles; re-entrant acquisition is an assertion in every harness",
-        outside="the worker's eviction path through its real delete hook (harness runs out of memory); fairness; real lock implementations; more than two logical threads",
+        bounds="lock-order graph: one reachability query per ordered pair of lock/queue classes in each C18 harness (cache-weight ops, pool add, ack races, delete + worker, unawaited put+delete + worker, get_ref hit path, guard-held races, real sweeper with real evict hook and real worker evicting a TTL key through its real delete hook, each on a one-key world); union graph checked for cycles; re-entrant acquisition is an assertion in every harness",
+        outside="fairness; real lock implementations; more than two logical threads; eviction paths on worlds with more than one resident",
         explanation="acquisitions respect a partial order (the observed held->acquired edges are acyclic), no re-entrant acquisition, no blocking send under a lock on the explored paths"),
 }
 GENERIC_NOTE = ("Trusted: Kani/CBMC/CaDiCaL; the verification models of dashmap, parking_lot, crossbeam-channel, hashbrown, bloomfilter, rand "
